@@ -785,6 +785,11 @@ class SArr(object):
 
     def _wrapred(self, r, dt):
         if _py_isinstance(r, rnp.ndarray):
+            if r.ndim == 0:
+                v = r[()]           # full reduction gives a scalar, as in NumPy
+                if _py_isinstance(v, _py_float) and not _py_isinstance(v, rnp.floating):
+                    v = rnp.float64(v)
+                return v
             return SArr(r, dt)
         return r
 
@@ -913,10 +918,29 @@ def _truediv(a, b):
     if not is_sym(a) and not is_sym(b):
         # numpy semantics for concrete cells: x/0 is inf/nan, not an exception
         try:
+            if symx.Ctx.current is not None:
+                # exact rational quotient of integral operands (1/3 stays 1/3 in the
+                # real model instead of its rounded double)
+                fa, fb = _as_fraction(a), _as_fraction(b)
+                if fa is not None and fb is not None and fb != 0:
+                    q = fa / fb
+                    return _py_float(q) if _py_float(q) == q and q.denominator in (1, 2, 4, 8, 16) else q
             return a / b
         except ZeroDivisionError:
             raise Unsupported("concrete division by zero (inf/nan) in a cell")
     return a / b
+
+
+def _as_fraction(v):
+    if _py_isinstance(v, bool):
+        return None
+    if _py_isinstance(v, fractions.Fraction):
+        return v
+    if _py_isinstance(v, (_py_int, rnp.integer)):
+        return fractions.Fraction(_py_int(v))
+    if _py_isinstance(v, (_py_float, rnp.floating)) and _py_float(v).is_integer() and _py_abs(v) < 2 ** 53:
+        return fractions.Fraction(_py_int(v))
+    return None
 
 
 def _mod(a, b):
@@ -1233,6 +1257,13 @@ def _sqrt_cell(c):
         return sym_sqrt(c)
     if c < 0:
         raise Unsupported("sqrt of a negative concrete value (nan)")
+    if symx.Ctx.current is not None and not _py_isinstance(c, bool):
+        # exact: an irrational root of a concrete number is kept as a witness r>=0, r*r=c
+        # (a rounded float would break identities such as (s/sqrt(3))**2 == s*s/3)
+        r = math.sqrt(c)
+        if r * r == c and float(r).is_integer():
+            return _py_float(r)
+        return sym_sqrt(SReal(symx.ratval(c)))
     return math.sqrt(c)
 
 
